@@ -176,8 +176,9 @@ def analyse(plan: dict[str, Any], result: dict[str, Any]) -> Report:
                     # a valid state must load, and the resumed job must run
                     props.append('C09')
                 if e.get('phase') == 'train':
-                    # a step that raises produces no gradients at all
-                    props += ['C05', 'C10']
+                    # a step that raises produces no gradients at all (and
+                    # leaves the factor update of that step unfinished)
+                    props += ['C05', 'C10', 'C01', 'C04']
                 if e.get('phase') == 'construct' and \
                         plan['hps']['kl_clip'].get('c', 0) is None:
                     props = ['C07']
